@@ -180,6 +180,38 @@ def rule_parsers(ck, entries):
     ck.floor("C44.rejecting-path", n, 1, "non-string dispatch parsers")
 
 
+def _parser_helper(call, sel):
+    """(helper, its parser parameter, its text parameter, the text argument at the call) for `self._h(text, _parse)`:
+    a same-class helper that is handed the selected parser and one piece of text; None otherwise."""
+    h = _callee_in_module(call) if isinstance(call, ast.Call) else None
+    if h is None or call.keywords:
+        return None
+    hp = [p for p in h.params() if p not in ("self", "cls")]
+    if len(hp) != len(call.args) or len(hp) != 2:
+        return None
+    ds = [q.dotted(a) for a in call.args]
+    if ds.count(sel) != 1:
+        return None
+    i = ds.index(sel)
+    return h, hp[i], hp[1 - i], call.args[1 - i]
+
+
+def _parsed_names(fn, sel):
+    is_sel_call = lambda e: isinstance(e, ast.Call) and q.dotted(e.func) == sel and len(e.args) == 1 and not e.keywords
+    names = set()
+    for n in own_nodes(fn.node):
+        if isinstance(n, ast.Assign) and len(n.targets) == 1 and isinstance(n.targets[0], ast.Name):
+            v = n.value
+            if is_sel_call(v) or (isinstance(v, ast.IfExp) and all(is_sel_call(x) or (isinstance(x, ast.Name) and x.id in names) for x in (v.body, v.orelse))):
+                names.add(n.targets[0].id)
+    return names
+
+
+def _range_of_parsed(a, names):
+    return isinstance(a, ast.Call) and q.dotted(a.func) == "range" and all(
+        all(isinstance(x, ast.Constant) or (isinstance(x, ast.Name) and x.id in names) for x in ast.walk(arg) if isinstance(x, (ast.Name, ast.Constant))) for arg in a.args)
+
+
 def rule_stores(ck, parse, sel):
     """Everything parse() stores into self._value came out of the selected parser."""
     is_sel_call = lambda e: isinstance(e, ast.Call) and q.dotted(e.func) == sel and len(e.args) == 1 and not e.keywords
@@ -205,8 +237,22 @@ def rule_stores(ck, parse, sel):
                 ck.ob("C44.stores-parsed", parse, n, len(n.args) == 1 and ok_val(n.args[0]), "each comma-separated part is parsed before it is appended")
             elif n.func.attr == "extend":
                 a = n.args[0] if n.args else None
-                ok = isinstance(a, ast.Call) and q.dotted(a.func) == "range" and all(all(isinstance(x, ast.Constant) or (isinstance(x, ast.Name) and x.id in parsed_names) for x in ast.walk(arg) if isinstance(x, (ast.Name, ast.Constant))) for arg in a.args)
-                ck.ob("C44.stores-parsed", parse, n, ok, "range bounds are parsed values")
+                ph = _parser_helper(a, sel)
+                if ph is not None:
+                    h_, hsel, _htext, _targ = ph
+                    hn = _parsed_names(h_, hsel)
+                    rets_ = [r for r in own_nodes(h_.node) if isinstance(r, ast.Return) and r.value is not None]
+                    if not rets_:
+                        raise AnalysisError("range helper %s returns nothing" % h_.qualname)
+                    for r in rets_:
+                        rv = r.value
+                        if not (isinstance(rv, ast.Call) and q.dotted(rv.func) == "range"):
+                            raise AnalysisError("range helper %s returns %s (not followed)" % (h_.qualname, q.unparse(rv)[:40]))
+                        ck.ob("C44.stores-parsed", ck.use(h_), r, _range_of_parsed(rv, hn), "range bounds are parsed values")
+                    continue
+                if not (isinstance(a, ast.Call) and q.dotted(a.func) == "range"):
+                    raise AnalysisError("_Option.parse extends self._value with %s (not followed)" % (q.unparse(a)[:50] if a is not None else "nothing"))
+                ck.ob("C44.stores-parsed", parse, n, _range_of_parsed(a, parsed_names), "range bounds are parsed values")
             else:
                 raise AnalysisError("unknown way of storing into self._value in _Option.parse: %s" % q.unparse(n))
     ck.floor("C44.stores-parsed", cnt, 3, "stores into self._value in _Option.parse")
@@ -414,6 +460,28 @@ def rule_set(ck):
         I_NONE, I_INST = "%s is None" % item, "isinstance(%s, self.type)" % item
         tracked |= {I_NONE, I_INST}
     res = {}
+    # item check written as any()/all() over the value: the generator's predicate is folded for the three kinds of item
+    agg = {}  # canonical test text -> polarity the test has when every item is acceptable
+    for tn in cfg.stmt_nodes(lambda n: n.kind == "test"):
+        c_ = tn.ast
+        if isinstance(c_, ast.Call) and isinstance(c_.func, ast.Name) and c_.func.id in ("any", "all") and len(c_.args) == 1 and isinstance(c_.args[0], (ast.GeneratorExp, ast.ListComp)):
+            g_ = c_.args[0]
+            if len(g_.generators) == 1 and q.dotted(g_.generators[0].iter) == v and isinstance(g_.generators[0].target, ast.Name) and not g_.generators[0].ifs:
+                it_ = g_.generators[0].target.id
+                rows_ = {}
+                for kind_ in ("none", "inst", "bad"):
+                    tbl = {"%s is None" % it_: kind_ == "none", "%s is not None" % it_: kind_ != "none", "isinstance(%s, self.type)" % it_: kind_ == "inst"}
+                    try:
+                        rows_[kind_] = bool(q.fold(_subst_calls(g_.elt, tbl), {}))
+                    except q.NotFoldable as e:
+                        raise AnalysisError("_Option.set: item predicate %s not foldable (%s)" % (q.unparse(g_.elt)[:60], e))
+                if c_.func.id == "any" and rows_ == {"none": False, "inst": False, "bad": True}:
+                    agg[q.unparse(c_)] = False   # any(bad items) must be false at the store
+                elif c_.func.id == "all" and rows_ == {"none": True, "inst": True, "bad": False}:
+                    agg[q.unparse(c_)] = True
+                else:
+                    ck.ob("C44.set-typecheck", fi, c_, False, "the item check accepts exactly None and instances of the option's type (folded: %s)" % rows_)
+    tracked |= set(agg)
 
     def tr(n, val):
         if n.kind == "for" and item and n.ast is fors[0]:
@@ -426,7 +494,10 @@ def rule_set(ck):
         for facts, _val in sorted(seen.get(s.id, ()), key=repr):
             fs = dict(facts)
             if fs.get(T_MULT) is True:
-                ok = fs.get(T_LIST) is True and item is not None
+                items_ok = item is not None or any(fs.get(t_) is pol_ for t_, pol_ in agg.items())
+                if fs.get(T_LIST) is True and not items_ok and any(isinstance(x, (ast.GeneratorExp, ast.ListComp, ast.For, ast.While)) for x in ast.walk(fi.node)):
+                    raise AnalysisError("_Option.set: the per-item check is in a shape that is not recognised")
+                ok = fs.get(T_LIST) is True and items_ok
                 ck.ob("C44.set-typecheck", fi, s.ast, ok, "multiple option: the value stored is a list whose items were checked", construct="multiple list=%s" % fs.get(T_LIST))
             elif fs.get(T_MULT) is False:
                 ok = fs.get(T_NONE) is True or fs.get(T_INST) is True
@@ -624,6 +695,16 @@ def rule_value_exact(ck):
             # derivation stops at the parameter itself (a Name without local definitions)
             m += check_exact(ck, "C44.value-exact", parse, c.args[0], lambda e: isinstance(e, ast.Name) and e.id == prm, allowed_parse,
                              "the type parser sees the given text, or a comma/colon-separated piece of it, unchanged", resolve_helper=_helper_resolver(ck, "_Option"), node=c)
+    for c in q.calls(parse.node):
+        ph = _parser_helper(c, sel) if sel else None
+        if ph is not None:
+            h_, hsel, htext, targ = ph
+            check_exact(ck, "C44.value-exact", parse, targ, lambda e: isinstance(e, ast.Name) and e.id == prm, allowed_parse,
+                        "the text handed to the range helper is a comma-separated piece of the given text, unchanged", resolve_helper=_helper_resolver(ck, "_Option"), node=c)
+            for c2 in q.calls(h_.node):
+                if q.dotted(c2.func) == hsel and len(c2.args) == 1:
+                    m += check_exact(ck, "C44.value-exact", ck.use(h_), c2.args[0], lambda e: isinstance(e, ast.Name) and e.id == htext, allowed_parse,
+                                     "the type parser sees the given text, or a comma/colon-separated piece of it, unchanged", resolve_helper=_helper_resolver(ck, "_Option"), node=c2)
     ck.floor("C44.value-exact", m, 3, "parser applications in _Option.parse")
 
 
@@ -695,6 +776,14 @@ def rule_whole_text(ck):
         k += 1
         ok = any(pol and t.startswith("issubclass(self.type") and "Integral" in t or pol and t in ("self.type is int", "self.type == int") for t, pol in expanded_facts(parse, facts[node.id]))
         ck.ob("C44.whole-text", parse, c, ok, "the lo:hi range syntax is applied only to integral options (a ':' in a str/datetime value is data)")
+    if k == 0:
+        # the split lives in a same-class helper: the guard is read at the helper's call site
+        for node, c in parse.cfg.find(lambda x: isinstance(x, ast.Call) and _callee_in_module(x) is not None):
+            h_ = _callee_in_module(c)
+            if any(isinstance(x, ast.Call) and isinstance(x.func, ast.Attribute) and x.func.attr in ("partition", "split") and x.args and q.is_const(x.args[0], ":") for x in ast.walk(h_.node)):
+                k += 1
+                ok = any(pol and t.startswith("issubclass(self.type") and "Integral" in t or pol and t in ("self.type is int", "self.type == int") for t, pol in expanded_facts(parse, facts[node.id]))
+                ck.ob("C44.whole-text", parse, c, ok, "the lo:hi range syntax is applied only to integral options (a ':' in a str/datetime value is data)")
     ck.floor("C44.whole-text", k, 1, "range splits in _Option.parse")
     # command-line scan starts at index 1
     fi = ck.func(F, "OptionParser.parse_command_line")
